@@ -55,6 +55,11 @@ MODELS = {
                    mp=True, fam="nuc"),
     "HKY85+edge-kappa": dict(get="HKY85", mt="dna", ml=1, rev=True, mp=True, fam="nuc", edge="kappa"),
     "dinuc": dict(ctor="dinuc", mt="dna", ml=2, rev=True, mp=True, fam="dinuc"),
+    # user-built models declared time-reversible: an undirected predicate (legitimate), and a pair of opposite directed
+    # predicates (not reversible once the two rates differ: the constructor must refuse it -- the problem is then skipped
+    # as ill-formed -- or the invariances must hold for it)
+    "userTR:A/C": dict(ctor="userTR", preds={"ac": "A/C"}, mt="dna", ml=1, rev=True, mp=True, fam="nuc"),
+    "userTR:A>G+G>A": dict(ctor="userTR", preds={"ag": "A>G", "ga": "G>A"}, mt="dna", ml=1, rev=True, mp=True, fam="nuc"),
     "MG94HKY": dict(get="MG94HKY", mt="dna", ml=3, rev=True, mp=True, fam="codon"),
     "MG94GTR": dict(get="MG94GTR", mt="dna", ml=3, rev=True, mp=True, fam="codon"),
     "GY94": dict(get="GY94", mt="dna", ml=3, rev=True, mp=True, fam="codon"),
@@ -69,7 +74,7 @@ MODELS = {
     "DSO78": dict(get="DSO78", mt="protein", ml=1, rev=True, mp=False, fam="aa"),
 }
 QUICK_MODELS = ["JC69", "K80", "F81", "HKY85", "TN93", "GTR", "GN", "ssGN", "HKY85+G4", "HKY85+edge-kappa", "dinuc",
-                "MG94HKY", "JTT92", "BH"]
+                "MG94HKY", "JTT92", "BH", "userTR:A/C", "userTR:A>G+G>A"]
 THOROUGH_MODELS = QUICK_MODELS + ["GTR+G2", "GY94", "CNFGTR", "MG94GTR", "Y98", "H04G", "GNC", "WG01+F", "DSO78"]
 
 PGRID = [[2.5, 0.6, 1.7, 3.1, 0.9, 1.3, 0.45], [0.4, 4.0, 1.0, 2.2, 0.7, 1.9, 3.3]]
@@ -81,6 +86,9 @@ def _model(mid):
     if cfg.get("ctor") == "dinuc":
         from cogent3.evolve import substitution_model as smm
         return smm.TimeReversibleDinucleotide(predicates={"kappa": "transition"}, mprob_model="tuple")
+    if cfg.get("ctor") == "userTR":
+        from cogent3.evolve import substitution_model as smm
+        return smm.TimeReversibleNucleotide(predicates=dict(cfg["preds"]))
     from cogent3 import get_model
     return get_model(cfg["get"], **cfg.get("kw", {}))
 
